@@ -26,7 +26,7 @@ def r1(c):
 
     def is_recv(o):
         s = q.sem(b, o)
-        return s.kind == 'call' and s.cs is rd and ':Ok' in ''.join(s.proj)
+        return s.kind == 'call' and s.cs is rd and q.has_success(s.proj)
 
     def is_expected(o):
         s = q.sem(b, o)
